@@ -564,6 +564,35 @@ def make_framing(framing):
     return q, len(body)
 
 
+def make_optional_headers():
+    """which upload parts carry the optional Content-Type header is a solver choice; a second form with the complementary
+    choice is posted to the same process afterwards: every upload shows its own type (none if it sent none)"""
+    def q(t1: bool, t2: bool, t3: bool, chunked2: bool):
+        def form(flags):
+            return [file_part("a", "x.png", "image/png" if flags[0] else None, b"1"), text_part("t", "v"),
+                    file_part("b", "y.bin", "application/pdf" if flags[1] else None, b"22"),
+                    file_part("a", "z", "text/x-z" if flags[2] else None, b"")]
+        flags = [bool(t1), bool(t2), bool(t3)]
+        for n, fl in enumerate((flags, [not f for f in flags])):
+            parts = form(fl)
+            body, enc = encode(b"b", parts)
+            status, seen = post(body, "multipart/form-data; boundary=b", len(body) + 1,
+                                "chunked" if n and chunked2 else "cl", 5)
+            bad = judge_post(status, seen, parts, False)
+            if bad:
+                return "form no. %d (typed uploads %r): %s" % (n + 1, fl, bad)
+            # an upload sent without a Content-Type shows none (or a neutral default), never the type of another part
+            for view in ("files", "post"):
+                for name, items in seen[view].items():
+                    sent = [p for p in parts if p["name"] == name]
+                    for (kind, _nm, fname, ct, _val, _content), p in zip(items, sent):
+                        if kind == "F" and not p["ctype"] and ct not in (None, "", "text/plain", "application/octet-stream"):
+                            return "form no. %d: upload %r (%r) was sent without a Content-Type and shows %r (%s view)" % (
+                                n + 1, name, fname, ct, view)
+        return None
+    return q
+
+
 def queries(tier):
     T = tier == "thorough"
     out = []
@@ -664,6 +693,10 @@ def queries(tier):
             wsgi(kinds, hot, "chunked", "body", 2, 1, 3, 900)
         for kinds, framing in [("T", "cl"), ("TF", "cl"), ("FT", "chunked"), ("TFT", "chunked"), ("FF", "cl")]:
             wsgi(kinds, None, framing, "all", 2, 0, 2, 600)
+    out.append(Q("optional-headers/two-forms", make_optional_headers(),
+                 "two 4-part forms posted one after the other; which of the three uploads carry a Content-Type header is a "
+                 "solver choice (the second form has the complementary choice; Content-Length or chunked)",
+                 timeout=300, expect_cover=["delivered"], family="optional-headers"))
     for framing in ("chunked", "cl", "short", "short-small"):
         fn, n = make_framing(framing)
         out.append(Q("framing/%s" % framing, fn,
